@@ -15,7 +15,7 @@ func init() {
 	register(&Rule{Name: "R-DUP-FIRST", Min: 6,
 		Doc: "every raw operation on a message/control channel (send, receive, select case) and every invocation of a transition callback, in a function that has a *Process parameter, is dominated by the false edge of a 'more than one provider' test whose true edge calls the duplication routine; other raw channel operations exist only in the forward form's methods (layering)",
 		Run: runDupFirst})
-	register(&Rule{Name: "R-GC-PROPAGATES", Min: 3,
+	register(&Rule{Name: "R-GC-PROPAGATES", Min: 6,
 		Doc: "dropping reclaims transitively: the drop rule spawns a to-drop forward for the dropped client before continuing; the handler of a received GC request spawns one for every free name of the body and terminates; the positive to-drop forward spawns one for each initialised channel of the swallowed message",
 		Run: runGCPropagates})
 }
@@ -335,27 +335,129 @@ func runGCPropagates(p *Program, r *RuleResult) {
 			r.add(fnName(h), "gc-cascades-to-free-names", Holds, p.pos(h.Pos()), "")
 		}
 	}
-	// (c) positive to-drop forward: spawns for initialised channels of the swallowed message
+	// (c) positive to-drop forward: for every message kind a positive provider writes on its own
+	// channel, and every Name field that writer sets, the swallowed message's field is dropped
 	fwd := p.Named(processPkg, "ForwardForm")
 	ft := p.Method(fwd, "Transition")
-	n := 0
+	fview := p.View(ft)
+	writers, _ := protocolTables(p, "Transition")
+	nameFieldsOfMessage := map[string]bool{}
+	mst := p.Named(processPkg, "Message").Underlying().(*types.Struct)
+	for i := 0; i < mst.NumFields(); i++ {
+		if isNameType2(mst.Field(i).Type()) {
+			nameFieldsOfMessage[mst.Field(i).Name()] = true
+		}
+	}
+	// which message kinds does the block exclude?
+	ruleT := p.Named(processPkg, "Rule")
+	excludes := func(b *ssa.BasicBlock, kind string) bool {
+		for f := range fview.FactsAt(b) {
+			bo, ok := f.v.(*ssa.BinOp)
+			if !ok || bo.Op.String() != "==" || !types.Identical(bo.X.Type(), ruleT) {
+				continue
+			}
+			k, ok := bo.Y.(*ssa.Const)
+			if !ok {
+				continue
+			}
+			kn := p.ruleConstName(k.Int64())
+			if f.k == factTrue && kn != kind {
+				return true
+			}
+			if f.k == factFalse && kn == kind {
+				return true
+			}
+		}
+		return false
+	}
+	msgField := func(v ssa.Value) string {
+		if _, fn2, ok := fieldNameOf(v); ok {
+			return fn2
+		}
+		if ld, ok := v.(*ssa.UnOp); ok {
+			if _, fn2, ok := fieldNameOf(ld.X); ok {
+				return fn2
+			}
+		}
+		return ""
+	}
+	// direct idiom: maker(…, message.F) spawned; list idiom: append(list, message.F) … maker(…, elem of list)
+	type cover struct {
+		field string
+		b     *ssa.BasicBlock
+	}
+	var covers []cover
+	listSpawned := false
 	for _, mk := range spawnOfMaker(ft) {
 		for _, a := range mk.Common().Args {
-			var fname string
-			if _, fn2, ok := fieldNameOf(a); ok {
-				fname = fn2
-			} else if ld, ok := a.(*ssa.UnOp); ok {
-				_, fname, _ = fieldNameOf(ld.X)
-			}
-			if fname == "Channel1" || fname == "Channel2" {
-				n++
+			if f := msgField(a); nameFieldsOfMessage[f] {
+				covers = append(covers, cover{f, mk.Block()})
+			} else if isNameType2(a.Type()) {
+				listSpawned = true // an element of a collection
 			}
 		}
 	}
-	if n >= 2 {
-		r.add(fnName(ft), "to-drop-forward-drops-payload-channels", Holds, p.pos(ft.Pos()), fmt.Sprintf("%d payload channels handled", n))
-	} else {
-		r.add(fnName(ft), "to-drop-forward-drops-payload-channels", Violated, p.pos(ft.Pos()), "the positive to-drop forward does not propagate the drop to both payload channels of the message it swallows")
+	if listSpawned {
+		for _, c := range p.callsIn(ft) {
+			call, ok := c.(*ssa.Call)
+			if !ok {
+				continue
+			}
+			if bi, ok := call.Common().Value.(*ssa.Builtin); !ok || bi.Name() != "append" {
+				continue
+			}
+			if elems, ok := varargElems(call.Common().Args[1]); ok {
+				for _, e := range elems {
+					if f := msgField(e.val); nameFieldsOfMessage[f] {
+						covers = append(covers, cover{f, call.Block()})
+					}
+				}
+			}
+		}
+		// slice literals []Name{message.A, message.B}
+		for _, b := range fview.Blocks() {
+			for _, in := range fview.Instrs(b) {
+				if sl, ok := in.(*ssa.Slice); ok {
+					if elems, ok := varargElems(sl); ok {
+						for _, e := range elems {
+							if f := msgField(e.val); nameFieldsOfMessage[f] {
+								covers = append(covers, cover{f, b})
+							}
+						}
+					}
+				}
+			}
+		}
+	}
+	nPairs := 0
+	seenPair := map[string]bool{}
+	for _, w := range writers {
+		if w.side != "own" || w.kind == "FWD" || w.kind == "GC" {
+			continue
+		}
+		for f := range w.fields {
+			if !nameFieldsOfMessage[f] || seenPair[w.kind+f] {
+				continue
+			}
+			seenPair[w.kind+f] = true
+			nPairs++
+			construct := fmt.Sprintf("to-drop-forward-drops:%s.%s", w.kind, f)
+			ok := false
+			for _, cv := range covers {
+				if cv.field == f && !excludes(cv.b, w.kind) {
+					ok = true
+				}
+			}
+			if ok {
+				r.add(fnName(ft), construct, Holds, p.pos(ft.Pos()), "")
+			} else {
+				r.add(fnName(ft), construct, Violated, p.pos(ft.Pos()),
+					fmt.Sprintf("a dropped provider may answer with a %s message (written by %s) whose %s names a live channel, but the positive to-drop forward does not propagate the drop to it: that channel's provider is never reclaimed", w.kind, w.form, f))
+			}
+		}
+	}
+	if nPairs == 0 {
+		r.add(fnName(ft), "to-drop-forward-drops", Undecided, p.pos(ft.Pos()), "no positive message kind with a channel payload found")
 	}
 	// the to-drop forward actively sends GC on the negative side
 	sendsGC := false
